@@ -6,7 +6,7 @@ import os
 from harness import common, gen_text, textimpl, gpgutil
 from harness.common import cps, uncps
 
-BRIDGE = ('Gemato.Bridge.Text',)
+BRIDGE = ('Gemato.Bridge.Text', 'Gemato.Bridge.SrcText')
 PROPS = ['Gemato.Props.C04', 'Gemato.Props.C04b']
 
 
